@@ -221,6 +221,11 @@ class Interp:
                 return Fraction(math.floor(args[0]))
         raise KeyError(a)
 
+    def numeric(self, r, sample: dict = None) -> Fraction:
+        """Value of an abstract number at a sample point (default: the first live sample)."""
+        s = sample if sample is not None else self.samples[0]
+        return r.evaluate(lambda at: self.eval_atom(at, s))
+
     def sign_of(self, r: R) -> Optional[int]:
         """Sign of r: decided if constant, or if all samples of the abstract case agree."""
         if r.is_const():
